@@ -390,10 +390,11 @@ func init() {
 				{Group: "pipe", Harness: "VThrottlePace", Mode: "bmc", Params: map[string]int{"ops": 1, "n": 3, "interval": 10, "clock": 2}, K: 40},
 				{Group: "pipe", Harness: "VThrottlePace", Mode: "bmc", Params: map[string]int{"ops": 1, "n": 2, "interval": 7, "clock": 2}, K: 40},
 				{Group: "pipe", Harness: "VThrottlePace", Mode: "bmc", Params: map[string]int{"ops": 2, "n": 3, "interval": 5, "clock": 2}, K: 40},
+				// (two full rounds of two tokens: a lost token shows as lateness only in the second round)
+				{Group: "pipe", Harness: "VThrottlePace", Mode: "bmc", Params: map[string]int{"ops": 2, "n": 4, "interval": 10, "clock": 2}, K: 48},
 			}
 			if tier == "thorough" {
 				js = append(js,
-					JobSpec{Group: "pipe", Harness: "VThrottlePace", Mode: "bmc", Params: map[string]int{"ops": 2, "n": 4, "interval": 10, "clock": 2}, K: 48},
 					JobSpec{Group: "pipe", Harness: "VThrottlePace", Mode: "bmc", Params: map[string]int{"ops": 1, "n": 4, "interval": 10, "clock": 2}, K: 48},
 				)
 			}
